@@ -297,10 +297,13 @@ class CodespeedReporter(Reporter):
             self._send_and_empty_cache()
             return
 
+        # experiments can have their own Codespeed settings:
+        # report only the runs that report to this reporter
+        run_ids = [run_id for run_id in run_ids if run_id.is_reported_by(self)]
         results = [self._prepare_result(run_id) for run_id in run_ids]
 
         if len(run_ids) == 1:
-            run_id = next(iter(run_ids))
+            run_id = run_ids[0]
         else:
             run_id = None
 
